@@ -1,0 +1,174 @@
+//! Verification hooks (only compiled with the `verif-hooks` feature).
+//!
+//! Thin, additive wrappers that expose crate-private functionality to an
+//! external verification harness. Nothing in here is used by the library itself
+//! (except `yield_point`, which is a no-op unless a hook function is installed).
+
+use std::{
+    io::Read,
+    num::NonZeroU32,
+    sync::{Arc, RwLock},
+};
+
+use bytes::Bytes;
+
+use crate::{
+    BytesList, FileType, Id, ReadBackend, RusticResult, WriteBackend,
+    backend::decrypt::{DecryptBackend, DecryptReadBackend, DecryptWriteBackend},
+    chunker::ChunkIter,
+    crypto::CryptoKey,
+    error::{ErrorKind, RusticError},
+    repofile::{ConfigFile, MasterKey},
+};
+
+pub use crate::index::{
+    IndexEntry, ReadIndex,
+    binarysorted::{Index, IndexCollector, IndexType},
+};
+
+/// H1: the chunk iterator the archiver uses for `(config, reader, size_hint)`.
+///
+/// # Errors
+///
+/// * If the chunker parameters in the config are refused.
+pub fn chunk_iter<R: Read + Send + 'static>(
+    config: &ConfigFile,
+    reader: R,
+    size_hint: usize,
+) -> RusticResult<Box<dyn Iterator<Item = RusticResult<Vec<u8>>> + Send>> {
+    Ok(Box::new(ChunkIter::from_config(config, reader, size_hint)?))
+}
+
+/// H2: raw message encryption with the repository key.
+///
+/// # Errors
+///
+/// * If encryption fails.
+pub fn encrypt_data(key: &MasterKey, data: &[u8]) -> RusticResult<Vec<u8>> {
+    key.key().encrypt_data(data)
+}
+
+/// H2: raw message decryption with the repository key.
+///
+/// # Errors
+///
+/// * If the MAC check fails or the message is too short.
+pub fn decrypt_data(key: &MasterKey, data: &[u8]) -> RusticResult<Vec<u8>> {
+    key.key().decrypt_data(data)
+}
+
+#[derive(Debug)]
+struct NullBackend;
+
+impl ReadBackend for NullBackend {
+    fn location(&self) -> String {
+        "verif:null".to_string()
+    }
+    fn list_with_size(&self, _tpe: FileType) -> RusticResult<Vec<(Id, u32)>> {
+        Ok(Vec::new())
+    }
+    fn read_full(&self, _tpe: FileType, _id: &Id) -> RusticResult<Bytes> {
+        Err(RusticError::new(ErrorKind::Backend, "null backend"))
+    }
+    fn read_partial(
+        &self,
+        _tpe: FileType,
+        _id: &Id,
+        _cacheable: bool,
+        _offset: u32,
+        _length: u32,
+    ) -> RusticResult<Bytes> {
+        Err(RusticError::new(ErrorKind::Backend, "null backend"))
+    }
+    fn warmup_path(&self, _tpe: FileType, _id: &Id) -> String {
+        String::new()
+    }
+}
+
+impl WriteBackend for NullBackend {
+    fn write_bytes(
+        &self,
+        _tpe: FileType,
+        _id: &Id,
+        _cacheable: bool,
+        _content: BytesList,
+    ) -> RusticResult<()> {
+        Ok(())
+    }
+    fn remove(&self, _tpe: FileType, _id: &Id, _cacheable: bool) -> RusticResult<()> {
+        Ok(())
+    }
+}
+
+fn dbe(
+    key: &MasterKey,
+    zstd: Option<i32>,
+    extra_verify: bool,
+) -> DecryptBackend<crate::crypto::aespoly1305::Key> {
+    let mut dbe = DecryptBackend::new(Arc::new(NullBackend), key.key());
+    dbe.set_zstd(zstd);
+    dbe.set_extra_verify(extra_verify);
+    dbe
+}
+
+/// H2: what `save_file` stores for an encrypted repository file.
+///
+/// # Errors
+///
+/// * If compression or encryption fails.
+pub fn encode_file(key: &MasterKey, zstd: Option<i32>, data: &[u8]) -> RusticResult<Vec<u8>> {
+    dbe(key, zstd, false).verif_encrypt_file(data)
+}
+
+/// H2: what `get_file` decodes from stored bytes before JSON parsing.
+///
+/// # Errors
+///
+/// * If decryption or decompression fails.
+pub fn decode_file(key: &MasterKey, data: &[u8]) -> RusticResult<Vec<u8>> {
+    dbe(key, None, false).verif_decrypt_file(data)
+}
+
+/// H2: what the packer stores for a blob: `(stored bytes, data length, uncompressed length)`.
+///
+/// # Errors
+///
+/// * If compression, encryption or the extra verification fails.
+pub fn encode_blob(
+    key: &MasterKey,
+    zstd: Option<i32>,
+    extra_verify: bool,
+    data: &[u8],
+) -> RusticResult<(Vec<u8>, u32, Option<NonZeroU32>)> {
+    dbe(key, zstd, extra_verify).process_data(data)
+}
+
+/// H2: what a blob read decodes from the stored bytes of a blob.
+///
+/// # Errors
+///
+/// * If decryption or decompression fails or the length does not match.
+pub fn decode_blob(
+    key: &MasterKey,
+    data: &[u8],
+    uncompressed_length: Option<NonZeroU32>,
+) -> RusticResult<Bytes> {
+    dbe(key, None, false).read_encrypted_from_partial(data, uncompressed_length)
+}
+
+type YieldHook = Arc<dyn Fn(&'static str) + Send + Sync>;
+
+static YIELD_HOOK: RwLock<Option<YieldHook>> = RwLock::new(None);
+
+/// H4: install (or remove) the function called at the pipeline yield points.
+pub fn set_yield_hook(hook: Option<YieldHook>) {
+    *YIELD_HOOK.write().unwrap() = hook;
+}
+
+/// H4: called between pipeline stages; does nothing unless a hook is installed.
+pub fn yield_point(name: &'static str) {
+    let hook = YIELD_HOOK.read().unwrap().clone();
+    if let Some(hook) = hook {
+        hook(name);
+    }
+}
